@@ -195,7 +195,45 @@ func formatEventsParseError(path string, lineNo int, line []byte, cause error) e
 	return fmt.Errorf("%s:%d: invalid JSON in events log (run `ergo compact` after fixing): %s (%v)", path, lineNo, snippet, cause)
 }
 
+// logHasTornTail reports whether the log is non-empty and does not end in a
+// newline (a writer died inside write(2)).
+func logHasTornTail(path string) (bool, error) {
+	file, err := os.Open(path)
+	if err != nil {
+		if errors.Is(err, os.ErrNotExist) {
+			return false, nil
+		}
+		return false, err
+	}
+	defer file.Close()
+	info, err := file.Stat()
+	if err != nil {
+		return false, err
+	}
+	if info.Size() == 0 {
+		return false, nil
+	}
+	last := make([]byte, 1)
+	if _, err := file.ReadAt(last, info.Size()-1); err != nil {
+		return false, err
+	}
+	return last[0] != '\n', nil
+}
+
 func appendEvents(path string, events []Event) error {
+	// Appending after a torn tail would glue the new line onto the fragment and
+	// make the whole log unreadable. Rewrite instead: readEvents drops the
+	// fragment (or keeps a complete final line that only lacks its newline),
+	// and the atomic replace never disturbs a concurrent reader.
+	if torn, err := logHasTornTail(path); err != nil {
+		return err
+	} else if torn && len(events) > 0 {
+		existing, err := readEvents(path)
+		if err != nil {
+			return err
+		}
+		return appendEventsAtomically(path, existing, events)
+	}
 	file, err := os.OpenFile(path, os.O_APPEND|os.O_CREATE|os.O_WRONLY, 0644)
 	if err != nil {
 		return err
